@@ -487,3 +487,57 @@ func init() {
 			}
 		}})
 }
+
+func init() {
+	register(&Rule{ID: "PS.dedup", Min: 2, Text: "the batching de-duplication of DocChanged events is per publisher: in the OnEnqueue callback of a document's subscriptions every access to the pending-count map is keyed by the new event's Actor — together with the self-filter (a watcher is not sent its own events) a per-document key drops the only event that would have told a client about somebody else's change",
+		Run: func(x *Ctx) {
+			fn := x.fn("server/backend/pubsub.newSubscriptions")
+			actorF := x.P.Field("api/types/events.DocEvent.Actor")
+			if fn == nil || actorF == nil {
+				x.C.Unresolved(x.id(), "pubsub.newSubscriptions / DocEvent.Actor")
+				return
+			}
+			n := 0
+			for _, cl := range prog.Closures(fn) {
+				// the callback with (queue, newEvent) parameters returning (queue, bool)
+				if len(cl.Params) != 2 || cl.Signature.Results().Len() != 2 {
+					continue
+				}
+				ev := cl.Params[1]
+				fromActor := func(k ssa.Value) bool {
+					return prog.DependsOn(k, func(w ssa.Value) bool {
+						f := prog.LoadedField(w)
+						if f == nil {
+							if fv, ok := prog.Strip(w).(*ssa.Field); ok {
+								f = prog.FieldVar(fv)
+							}
+						}
+						return f == actorF
+					}) && prog.DependsOn(k, func(w ssa.Value) bool { return w == ssa.Value(ev) || prog.Reaches(w, func(u ssa.Value) bool { return u == ssa.Value(ev) }) })
+				}
+				i := 0
+				for _, b := range cl.Blocks {
+					for _, ins := range b.Instrs {
+						var key ssa.Value
+						switch t := ins.(type) {
+						case *ssa.Lookup:
+							if _, isMap := t.X.Type().Underlying().(*types.Map); isMap {
+								key = t.Index
+							}
+						case *ssa.MapUpdate:
+							key = t.Key
+						}
+						if key == nil {
+							continue
+						}
+						i++
+						n++
+						x.check(fromActor(key), fmt.Sprintf("func=%s map-access#%d keyed-by-event.Actor", prog.FnName(cl), i), x.pos(ins), "the count is kept per publisher", "the pending-DocChanged counter is not keyed by the publisher: events of different publishers for one document suppress each other, and with the self-filter a watcher is never told about another client's change")
+					}
+				}
+			}
+			if n < 2 {
+				x.C.Vacuous(x.id()+" map accesses", n, 2)
+			}
+		}})
+}
